@@ -39,8 +39,25 @@ def coq_case(spec):
     scs = coq_list(['(%s, %s)' % (Fv(s['factor']), zopt(s.get('tag'))) for s in spec.get('scales', [])])
     return 'Eval vm_compute in (geom_case %s %s %s).' % (objs, coq_list(ts), scs)
 
+def taper_probes():
+    """every taper kind on thin and FAT wires (2.5 radii above the natural shortest segment), with no limit, a minimum
+    below / above 2.5 radii, a maximum, both"""
+    out = []
+    k = 0
+    for kind in (1, 2, 3):
+        for n in (5, 10, 16):
+            L = 1.0
+            for r in (L / n / 1000, L / n / 12, L / n / 4):
+                for tmin in (None, L / n / 400, L / n / 9, L / n / 2):
+                    for tmax in (None, 1.6 * L / n):
+                        w = gen.wire(n, [0.1, 0.2, 0.3], [0.1 + 0.6 * L, 0.2, 0.3 + 0.8 * L], r, tag=1, taper=[kind, tmin, tmax])
+                        out.append(dict(id=10 ** 6 + k, seed=0, spec=dict(f=10.0, wires=[w], media=None, family='taper-probe', tagmode='explicit',
+                                        sources=[], loads=[], transforms=[], transforms_unsorted=[], scales=[])))
+                        k += 1
+    return out
+
 def run_stage(chk, rng, ncases, cases=None):
-    cases = cases or [dict(id=i, seed=rng.randrange(10 ** 9), spec=gen.gen_geometry(rng)) for i in range(ncases)]
+    cases = cases or (taper_probes() + [dict(id=i, seed=rng.randrange(10 ** 9), spec=gen.gen_geometry(rng)) for i in range(ncases)])
     shards = [cases[k::NCPU] for k in range(NCPU) if cases[k::NCPU]]
     res = run_workers('geom', [dict(cases=s) for s in shards])
     results = []
